@@ -19,7 +19,7 @@ def correspondence(ctx):
         for pre, post in ctxs:
             cases.append(f'rules|um|case|{hexs(pre + [c] + post)}')
         cases.append(f'rules|nick|case|{hexs([0x65E5, c, c])}')
-    alpha = [0x41, 0x61, 0xC9, 0x65E5, 0x20000, 0x130, 0x3A3, 0x1F88, 0x1C5, 0x13A0, 0x31]
+    alpha = xa(ctx, [0x41, 0x61, 0xC9, 0x65E5, 0x20000, 0x130, 0x3A3, 0x1F88, 0x1C5, 0x13A0, 0x31], 5)
     maxlen = 3 if ctx.tier == 'quick' else 5
     for s in all_strings(alpha, maxlen):
         cases.append(f'rules|um|case|{hexs(s)}')
